@@ -578,7 +578,7 @@ func interpSymmetry(ctx *Ctx, r *Report, pkg, name, rule string) {
 		r.undecided(rule, name, fn.Pos(), "unexpected signature")
 		return
 	}
-	pn := func(i int) string { return fn.Params[i].Name() }
+	pn := func(i int) string { return paramName(fn, i) }
 	p1, p2, v1, v2, x := pn(0), pn(1), pn(2), pn(3), pn(4)
 	// swap substitution
 	sw := map[string]*Term{v1: A(v2), v2: A(v1)}
